@@ -17,4 +17,19 @@ REGISTRY = {
         "level_text": "every span/span and loc/span pair on a 3x4 grid in two files is enumerated exhaustively and compared with the closed-interval definitions of the statement; Hypothesis adds large coordinates. Exploration is the right level: the operators are total functions of 8 integers and the small grid already contains every order relation between the four endpoints.",
         "level_note": "oracle = interval definitions written from the property statement (touching spans intersect in an empty span); trusted: CPython tuple ordering",
     },
+    "C23": {
+        "technique": "Hypothesis RuleBasedStateMachine over generated two-module namespaces (user/builtin/Guppy/no bindings of int, float, len; comptime call graphs incl. re-entrant compiles and toggleable faults) with a before/after identity snapshot oracle on module.__dict__",
+        "level_text": "each machine generates two modules whose int/float/len are unbound or bound (user function, class, value, the builtin, Guppy's definition) and 3-6 mostly @guppy.comptime functions that use the shadowed names, call each other within and across modules, re-enter the compiler from inside a trace, and raise Python exceptions (incl. a BaseException subclass) or Guppy errors at drawn statements behind toggleable switches; compile / compile_function / check run in any order and after every rule both modules' __dict__ must have the same keys bound to the identical objects. Exploration is the right level: the mechanism is a save/patch/restore of three names, and all binding kinds x success/raise x nested/not combinations are reached in the quick tier.",
+        "level_note": "oracle = key set + `is` identity of a shallow snapshot (key order not compared); bodies never mutate globals themselves; stale tracing state after a failed trace (set_tracing_state without try/finally) is observed and recorded in evidence notes but belongs to C11, not flagged here; call graphs acyclic",
+    },
+    "C31": {
+        "technique": "Hypothesis-generated type descriptions built into /repo's own type objects; print -> ast.parse -> type_from_ast round-trip oracle under the generated struct module's Globals, plus a binder/occurrence bijection oracle on printed generic function types",
+        "level_text": "first-order ground types (depth 1-4) over int/nat/float/bool/str/None, tuples of length 0-5, array/frozenarray with nat lengths up to 10^30, Option and 11 @guppy.struct definitions (plain, Generic[T..], nat/bool/float const params, PEP 695 syntax) are printed with str() and read back as annotations with type_from_ast in the context the compiler uses for that module; equality with the original type is required. Rank-1 generic function types with up to 5 bound and 4 existential variables drawn from small name pools are printed and the variable tokens of binder and body are matched positionally against the known variable occurrences: variable <-> name must be a bijection. Exploration is the right level: printer and parser are small structural recursions over 8 constructors and ~10k cases per quick run cover every constructor pair at depth <= 2 many times.",
+        "level_note": "oracle = round trip and name bijection as worded in the statement (no printed name is predicted). Two known findings (known_findings.json) are excluded from the search while their fixed probes fail: roundtrip.tuple1 and roundtrip.single_tuple_arg. Not claimed: types with function components in the round-trip half, negative/non-finite float const arguments (not writable as annotation), types with more than one quantifier. Trusted: CPython ast.parse, dataclass equality of /repo's type classes.",
+    },
+    "C33": {
+        "technique": "Hypothesis RuleBasedStateMachine over the public gate API (calls, nested/exceptional with-blocks, check() of fresh gated/ungated programs) vs a stack-of-saved-values reference model",
+        "level_text": "histories of plain enable()/disable() calls, LIFO-nested with-blocks (normal and exceptional __exit__) and check() of 11 gated programs (4 list shapes, 2 tensor positions, 2 closure shapes, 3 modifiers) + an ungated control are generated and shrunk by Hypothesis; after every step the process-global flag must equal the model and accept/reject (with the experimental-feature diagnostic) must follow the model; a fresh-process case checks the default-closed gate. Exploration is the right level: the state is one boolean plus a stack, and nesting depth <=4 with every rule interleaving is reached in the quick tier.",
+        "level_note": "oracle written from the statement (stack model), not from experimental.py; closures' `Unsupported: Capturing closures` wording accepted as the gate's message; with-statement modelled as ctor+type.__enter__/type.__exit__; a context manager constructed early and entered later is outside the domain",
+    },
 }
